@@ -1353,8 +1353,11 @@ class ScenarioOutlineBuilder(object):
 
         tags = []
         for tag in outline_tags:
-            if cls.is_parametrized_tag(tag):
-                tag = cls.render_template(tag, row, params)
+            if not cls.is_parametrized_tag(tag):
+                # -- TAG WITHOUT PLACEHOLDER: Is taken over unchanged.
+                tags.append(tag)
+                continue
+            tag = cls.render_template(tag, row, params)
             if cls.is_parametrized_tag(tag):
                 # -- OOPS: Unknown placeholder, drop tag.
                 continue
